@@ -16,12 +16,15 @@ func VerifUsable(R, maxLen, startMode int) {
 	decl := &DeclareNode{
 		TokenDefList: []TokenDef{{IdentifyList: []Idendity{
 			{Name: "A", IDTyp: TERMID}, {Name: "B", IDTyp: TERMID, Value: 7}}}},
-		StartSym: startName,
+		// B has a precedence level, A has none
+		PrecDefList: [][]PrecDef{{{IdName: "B", AssocType: LeftAssocType}}},
+		StartSym:    startName,
 	}
 	if declT {
 		decl.TypeDefList = []TypeDef{{Tag: "t", IdName: "T"}}
 	}
 	lhsNames := []string{startName, "N", "T"}
+	precUndeclared := false
 	lhsOf := make([]int, R)
 	rhsOf := make([][]int, R)
 	var defs []RuleDef
@@ -30,6 +33,16 @@ func VerifUsable(R, maxLen, startMode int) {
 		lhsOf[r] = li
 		n := verifConc(verifIntIn("len", 0, maxLen))
 		rd := RuleDef{LeftPart: lhsNames[li], LineNo: r + 1}
+		// %prec: none, a declared token without a level, a declared token with a level, an undeclared name
+		switch verifConc(verifPick("prec", 4)) {
+		case 1:
+			rd.PrecSym = "A"
+		case 2:
+			rd.PrecSym = "B"
+		case 3:
+			rd.PrecSym = "U"
+			precUndeclared = true
+		}
 		for j := 0; j < n; j++ {
 			k := verifConc(verifPick("rhs", len(pool)))
 			rhsOf[r] = append(rhsOf[r], k)
@@ -47,6 +60,9 @@ func VerifUsable(R, maxLen, startMode int) {
 		defined[lhsOf[r]] = true
 	}
 	bad := !defined[0] // the start symbol needs a rule
+	if precUndeclared {
+		bad = true // %prec names a symbol that is neither declared nor defined
+	}
 	if declT && !defined[2] {
 		bad = true // a declared nonterminal without any rule derives nothing
 	}
